@@ -10,7 +10,7 @@ PROPERTY = "C11"
 LEVEL = "exploration"
 BUDGET = {"quick": 40, "thorough": 600}
 CAUSES = ["conn_close", "http10", "bad_request", "too_few_bytes", "too_few_bytes_zero", "exc_after_head", "no_length",
-          "client_fin", "client_rst", "bad_chunk", "oversize_body"]
+          "client_fin", "client_rst", "bad_chunk", "oversize_body", "send_error"]
 FOLLOW = ["complete", "partial", "garbage", "complete_with_body"]
 EVIDENCE = {
     "rule": "one or two connections; 0-3 ordinary keep-alive requests, then a closing message (cause drawn from: "
@@ -23,7 +23,8 @@ EVIDENCE = {
     "assumptions": [
         "the close decision is read off the wire: the first final response that announces or implies closing (Connection: close, HTTP/1.0 without keep-alive, server error status, truncated body)",
         "for client faults the rule is: if the server closed the socket before application call k returned, call k+1 must not exist",
-        "a worker's failed flush is a hint, not the decision (the I/O thread decides), so it is not used as the decision point",
+        "a worker's flush that merely could not send (the peer is gone: send reports 0 bytes) is a hint, not the decision - the I/O thread decides - and is not used as the decision point; "
+        "a worker's flush that fails with any other socket error is the decision (the channel marks itself will_close there): the request being served is the last one",
     ],
 }
 
@@ -51,6 +52,7 @@ def gen(W):
         c["app_sleep"] = W.choice([0, 0.0005, 0.01])
         c["cuts"] = common.cut_points(W, 600, 2)
         c["fault_after"] = W.draw(400)
+        c["errno"] = W.choice(["ETIMEDOUT", "EHOSTUNREACH", "ENOBUFS", "EINVAL"])
         conns.append(c)
     sc["conns"] = conns
     sc["sched"], sc["trace"] = common.draw_sched(W, walk_p=0.7)
@@ -172,6 +174,11 @@ def run_one(tapes, tier, scenario=None):
         elif p["cause"] == "client_rst":
             steps.append(("wait", ("bytes", c["fault_after"]), c["delay"]))
             steps.append(("rst",))
+        elif p["cause"] == "send_error":
+            # the network towards this client fails: the n-th send() on the connection raises an error that is
+            # not one of the "peer is gone" codes
+            import errno as _errno
+            sim.add_fault(cid, "send", c["fault_after"] % 6, getattr(_errno, c.get("errno", "ETIMEDOUT")))
         sim.add_client(steps, cid=cid)
 
     sim.run()
@@ -202,8 +209,9 @@ def run_one(tapes, tier, scenario=None):
                 kclose, why = i, "HTTP/1.0 response without keep-alive"
             elif r.status in (400, 413, 431, 500, 501) and r.get("Server") is not None and b"generated by" in r.body:
                 kclose, why = i, "server error response %d" % r.status
-            elif not r.complete and not s.rst:
-                # (a response cut short by the client's own reset is not a server decision)
+            elif not r.complete and not s.rst and not any(e[2] == "fault" and e[3] == cid and e[4] == "send" for e in k.history):
+                # (a response cut short by the client's own reset, or by the injected failure of send() itself, is
+                # not a server decision: the rules for faults below apply instead)
                 kclose, why = i, "undelimitable response"
             if kclose is not None:
                 break
@@ -228,6 +236,17 @@ def run_one(tapes, tier, scenario=None):
                           "conn %d: socket closed (seq %d) before call %d returned (seq %r) yet call %d began at seq %d" % (
                               cid, close_seq, i, c["end"], i + 1, nxt["begin"]))
                     break
+        # a socket error met by a worker while it sends output of call k: the connection is given up there and then,
+        # by the very thread that would otherwise go on to start request k+1
+        for e in k.history:
+            if e[2] == "fault" and e[3] == cid and e[4] == "send" and e[1] != "io" and e[6] not in ("RST", "FIN", "FIN-arrives"):
+                during = [i for i, c in enumerate(calls) if c["begin"] is not None and c["begin"] < e[0]]
+                after = [c for c in calls if c["begin"] is not None and c["begin"] > e[0]]
+                if during and after:
+                    res.v("executed_after_send_error", p["cause"],
+                          "conn %d: send() raised %s on worker %s at seq %d while request %d was being served, yet the application was called again at seq %d for %s; lookahead %d" % (
+                              cid, e[6], e[1], e[0], call_pos[during[-1]], after[0]["begin"], after[0]["path"], sc["lookahead"]))
+                break
         if sorted(call_pos) != call_pos or len(set(call_pos)) != len(call_pos):
             res.v("order", "calls_out_of_order", "conn %d: calls %r" % (cid, call_pos))
         # non-trivial: follower bytes reached the server socket before it was closed
